@@ -65,3 +65,19 @@ static inline _Bool tmcg_mpz_qrmn_p(mpz_srcptr a, mpz_srcptr p, mpz_srcptr q) { 
 static inline void tmcg_mpz_sqrtmn_fast_all(mpz_ptr r0, mpz_ptr r1, mpz_ptr r2, mpz_ptr r3, mpz_srcptr a, mpz_srcptr p, mpz_srcptr q, mpz_srcptr m,
   mpz_srcptr up, mpz_srcptr vq, mpz_srcptr pa, mpz_srcptr qa)
 { (void)a; (void)p; (void)q; (void)m; (void)up; (void)vq; (void)pa; (void)qa; r0->v = (long)nondet_ulong(); r1->v = (long)nondet_ulong(); r2->v = (long)nondet_ulong(); r3->v = (long)nondet_ulong(); }
+/* std::string::find on the key type string: any outcome */
+extern size_t ghost_find_ret;
+static inline size_t str_t__find(str_t *s, const char *what, size_t pos) { (void)s; (void)what; (void)pos; return ghost_find_ret; }   /* one arbitrary outcome per run */
+
+/* ---- TMCG_PublicKey::check ---- */
+/* mpz_import (GMP manual): reads count words of `size` octets */
+static inline void mpz_import(mpz_ptr rop, size_t count, int order, size_t size, int endian, size_t nails, const void *op)
+{ (void)order; (void)endian; __CPROVER_assert(nails == 0, "model limit: mpz_import without nails");
+  __CPROVER_assert(count * size == 0 || __CPROVER_r_ok(op, count * size), "mpz_import: source holds count*size octets");
+  long x = (long)nondet_ulong(); __CPROVER_assume(x >= 0); rop->v = x; }
+/* the self-signature check inside check(): recorded, verdict arbitrary (its meaning: contract of verify) */
+size_t ghost_vfy_calls; _Bool ghost_vfy_ret; size_t ghost_find_ret;
+static inline _Bool PublicKey_verify_called(TMCG_PublicKey *self, str_t *data, str_t s)
+{ (void)self; (void)data; (void)s; __CPROVER_assume(ghost_vfy_calls + 1 > ghost_vfy_calls); ghost_vfy_calls++; return ghost_vfy_ret; }
+#undef str_t__find
+#define CHECK_MONITOR ghost_vfy_calls
